@@ -74,11 +74,6 @@ def validate(targets, existing):
     existing: predicate(path) -> bool"""
     kinds = set()
     deps, producers, unresolved = dependency_relation(targets)
-    # a target listing the same file twice among its own outputs also "produces it twice"
-    for t in targets:
-        ro = res_outs(t)
-        if len(ro) != len(set(ro)):
-            kinds.add("multi")
     for p, names in producers.items():
         if len(names) > 1:
             kinds.add("multi")
